@@ -894,6 +894,26 @@ def gen_fn(d, strip_paths, mode="verify", contract_text=None, vacuity=False):
             # (the `&mut` element borrow goes after a loop-body prologue, which may still want to read A)
             edits.append(Edit(lo + 1, "", " let " + x + " = " + ("" if amp else ("&mut " if mm.group(7) else "&")) + place + "[" + idx + "];", "norm:N15m" if mm.group(7) else "norm:N15"))
 
+    # N18: `for (k, v) in M {` over a HashMap taken by value -> `let verif_entries = verif_map_into_vec(M); for verif_pair in verif_entries { let (k, v) = verif_pair;`
+    # (the entries, each once, in the map's unspecified order - which is all the original promises too; vstd has no
+    # specification of HashMap's IntoIter).  Opt-in per function: `mapiter=NAME` names the map.
+    mapiter = d.opt("mapiter")
+    if mapiter:
+        n18 = re.compile(r"for\s+(\((\w+), (\w+)\))\s+in\s+(" + re.escape(mapiter) + r")\s*\{")
+        hit = False
+        for kw, ks, lo, lc in loops:
+            if kw != "for":
+                continue
+            mm = n18.match(m, ks)
+            if mm and mm.end() - 1 == lo:
+                hit = True
+                edits.append(Edit(ks, "", "let verif_entries = verif_map_into_vec(" + mapiter + "); ", "norm:N18"))
+                edits.append(Edit(mm.start(1), text[mm.start(1) : mm.end(1)], "verif_pair", "norm:N18"))
+                edits.append(Edit(mm.start(4), text[mm.start(4) : mm.end(4)], "verif_entries", "norm:N18"))
+                edits.append(Edit(lo + 1, "", " let (" + mm.group(2) + ", " + mm.group(3) + ") = verif_pair;", "norm:N18"))
+        if not hit:
+            raise ExtractError("lost anchor: %s has no `for (k, v) in %s {` loop (%s)" % (qual, mapiter, d.where))
+
     # N16: a reference pattern inside `if let Some(&x) = E {` (Verus has no ref patterns):
     #      -> `if let Some(verif_ref_x) = E { let x = *verif_ref_x;`   (x: Copy, as in N4)
     for mm in re.finditer(r"\bif\s+let\s+Some\(&(\w+)\)\s*=", m[:body_close]):
@@ -933,7 +953,7 @@ def gen_fn(d, strip_paths, mode="verify", contract_text=None, vacuity=False):
             continue
         final.append(x)
     # merge multiple zero-width insertions at the same offset deterministically by kind order
-    order = {"splice:S5": 0, "splice:S6": 0, "norm:N7": 1, "splice:S1": 2, "splice:S3": 2, "norm:N9": 2, "splice:S2": 3, "norm:N4": 3, "splice:S4": 4, "splice:S7": 2, "norm:N12": 3, "norm:N13": 1, "norm:N14": 4, "norm:N15": 3, "norm:N15m": 6, "norm:N16": 3}
+    order = {"splice:S5": 0, "splice:S6": 0, "norm:N7": 1, "splice:S1": 2, "splice:S3": 2, "norm:N9": 2, "splice:S2": 3, "norm:N4": 3, "splice:S4": 4, "splice:S7": 2, "norm:N12": 3, "norm:N13": 1, "norm:N14": 4, "norm:N15": 3, "norm:N15m": 6, "norm:N16": 3, "norm:N18": 3}
     final.sort(key=lambda x: (x.off, 0 if x.old == "" else 1, order.get(x.kind, 5)))
     out, placed = apply_edits(text, final)
     if erase(out, placed) != text:
